@@ -5,12 +5,14 @@ import time
 from harness import pool, sandbox, trace, xl
 
 
-def formula_for(c, refs, fail, mode, via_range):
+def formula_for(c, refs, fail, mode, via_range, long_pad=False):
     """cell c (1-based, address A<c>) : = w(c) + refs...;  fail: own formula raises first"""
     parts = []
     if fail:
         parts.append('NOSUCHFUNC(1)' if mode == 0 else 'VLOOKUP(1,Z1:Z2,1,TRUE)')
     parts.append(str(2 ** (c - 1)))
+    if long_pad:          # a long (1200 character) but value-neutral term: failure reports must not depend on formula length
+        parts.append('LEN("' + 'x' * 1200 + '")*0')
     i = 0
     while i < len(refs):
         if via_range and i + 1 < len(refs) and refs[i + 1] == refs[i] + 1:
@@ -22,14 +24,19 @@ def formula_for(c, refs, fail, mode, via_range):
     return '=' + '+'.join(parts)
 
 
-def evaluate_graph(refs, fail, entry, mode=0, via_range=False):
+def evaluate_graph(refs, fail, entry, mode=0, via_range=False, long_pad=False, shared=None):
     def fn():
         L = xl.lib()
-        d = {f'Sheet1!A{c}': formula_for(c, refs[c - 1], fail[c - 1], mode, via_range) for c in range(1, len(refs) + 1)}
+        d = {f'Sheet1!A{c}': formula_for(c, refs[c - 1], fail[c - 1], mode, via_range, long_pad) for c in range(1, len(refs) + 1)}
         t = time.process_time()
         try:
-            model = L.ModelCompiler().read_and_parse_dict(d)
-            v = L.Evaluator(model).evaluate(f'Sheet1!A{entry}')
+            if shared is not None and 'ev' in shared:
+                ev = shared['ev']          # the SAME evaluator (and model) as earlier evaluations of this graph
+            else:
+                ev = L.Evaluator(L.ModelCompiler().read_and_parse_dict(d))
+                if shared is not None:
+                    shared['ev'] = ev
+            v = ev.evaluate(f'Sheet1!A{entry}')
             a = xl.to_abs(v)
             out = {'outcome': 'value', 'val': a['n'] if a['t'] == 'num' and a['d'] == 1 else -1, 'abs': a}
         except MemoryError:
@@ -50,7 +57,7 @@ def graph_worker(blocks):
         st = b if isinstance(b, dict) else pool.parse_block(b)
         refs, fail, entry, exp, val = st['refs'], st['fail'], st['entry'], st['outcome'], st['val']
         h = hash((str(refs), entry)) & 0xffff
-        obs = evaluate_graph(refs, fail, entry, mode=h % 2, via_range=(h >> 1) % 2 == 0)
+        obs = evaluate_graph(refs, fail, entry, mode=h % 2, via_range=(h >> 1) % 2 == 0, long_pad=(h >> 2) % 8 == 0)
         out['n'] += 1
         out['outcomes'][exp] = out['outcomes'].get(exp, 0) + 1
         anyfail = any(fail)
@@ -68,12 +75,41 @@ def graph_worker(blocks):
     return out
 
 
+def shared_worker(groups):
+    """all entries of one graph evaluated one after the other by ONE evaluator over one model (an evaluation that failed or
+    reported a cycle must leave nothing behind): every outcome must still be the one the specification gives for that entry"""
+    xl.lib()
+    out = {'n': 0, 'dis': []}
+    for refs, fail, entries in groups:
+        h = hash(str(refs)) & 0xffff
+        order = sorted(entries, reverse=bool(h % 2))
+        for rounds in range(2):
+            shared = {}
+            seq = order if rounds == 0 else order[::-1]
+            for entry in seq:
+                exp, val = entries[entry]
+                obs = evaluate_graph(refs, fail, entry, mode=h % 2, via_range=(h >> 1) % 2 == 0, shared=shared)
+                out['n'] += 1
+                ok = (obs['outcome'] == exp and (exp != 'value' or obs.get('val') == val)) or \
+                     (any(fail) and exp in ('cycle', 'error') and obs['outcome'] in ('cycle', 'error'))
+                if not ok:
+                    out['dis'].append({'case': {'refs': refs, 'fail': fail, 'entry': entry, 'evaluated_before_by_same_evaluator': seq[:seq.index(entry)]},
+                                       'exp': {'outcome': exp, 'val': val}, 'obs': {k: obs[k] for k in obs if k != 'abs'},
+                                       'features': {'expected': exp, 'observed': obs['outcome'], 'shared_evaluator': True, 'ncells': len(refs)}})
+                    break
+    return out
+
+
 def chain_event(depth, leaf):
+    flen = [0]
+
     def fn():
         L = xl.lib()
-        d = {'Sheet1!A1': {'valid': '=1', 'unknown': '=NOSUCHFUNC(1)', 'python': '=VLOOKUP(1,Z1:Z2,1,TRUE)'}[leaf]}
+        pad = '+LEN("' + 'y' * 1500 + '")*0' if depth % 3 == 1 else ''
+        d = {'Sheet1!A1': {'valid': '=1', 'unknown': '=NOSUCHFUNC(1)', 'python': '=VLOOKUP(1,Z1:Z2,1,TRUE)'}[leaf] + pad}
         for i in range(2, depth + 1):
             d[f'Sheet1!A{i}'] = f'=A{i - 1}+1' if i % 3 else f'=SUM(A{i - 1}:A{i - 1})+1'
+        flen[0] = max(len(x) for x in d.values())
         model = L.ModelCompiler().read_and_parse_dict(d)
         ev = L.Evaluator(model)
         t = time.process_time()
@@ -90,7 +126,7 @@ def chain_event(depth, leaf):
     r = sandbox.run_timed(fn, wall_s=30)
     r.setdefault('msglen', 0)
     r.setdefault('cpu_ms', 0)
-    return dict(r, kind='chain', depth=depth, leaf=leaf)
+    return dict(r, kind='chain', depth=depth, leaf=leaf, flen=flen[0])
 
 
 def chain_worker(items):
@@ -161,6 +197,18 @@ def run(run):
         for d in res['dis']:
             run.disagree('graph', d['case'], d['exp'], d['obs'], d['features'], clause=d['features']['expected'] + '->' + d['features']['observed'])
     run.notes['graphs_by_expected_outcome'] = outcomes
+    groups = {}
+    for cse in cases:
+        g = groups.setdefault((str(cse['refs']), str(cse['fail'])), (cse['refs'], cse['fail'], {}))
+        g[2][cse['entry']] = (cse['outcome'], cse['val'])
+    glist = [g for g in groups.values() if len(g[2]) > 1]
+    nshared = 0
+    for res in pool.pmap(shared_worker, glist):
+        nshared += res['n']
+        for d in res['dis']:
+            run.disagree('graph', d['case'], d['exp'], d['obs'], d['features'], clause='shared-evaluator:' + d['features']['expected'] + '->' + d['features']['observed'])
+    run.evaluations += nshared
+    run.notes['shared_evaluator_evaluations'] = nshared
     print(f'[c06] graphs replayed {outcomes}', file=sys.stderr, flush=True)
     if outcomes.get('cycle', 0) < 100 or outcomes.get('value', 0) < 100 or outcomes.get('error', 0) < 100:
         raise xl.MachineryError(f'vacuous instance: {outcomes}')
@@ -171,7 +219,7 @@ def run(run):
     events += [e for part in pool.pmap(seeded_worker, seeded_graphs(run.seed, 1500 if quick else 15000)) for e in part]
     run.evaluations += len(events)
     print(f'[c06] {len(events)} events recorded', file=sys.stderr, flush=True)
-    clean = [{k: v for k, v in e.items() if k in ('kind', 'depth', 'leaf', 'outcome', 'msglen', 'cpu_ms', 'refs', 'fail', 'entry', 'val')} for e in events]
+    clean = [{k: v for k, v in e.items() if k in ('kind', 'depth', 'leaf', 'outcome', 'msglen', 'cpu_ms', 'refs', 'fail', 'entry', 'val', 'flen')} for e in events]
     res = trace.validate(run, clean, module='Trace_C06', kind='trace-c06',
                          features=lambda e, x, v: {'verdict': v, 'kind': e['kind'], 'depth': e.get('depth'), 'leaf': e.get('leaf')})
     run.sample({'chain_events': [e for e in events if e['kind'] == 'chain'][-3:]})
